@@ -825,7 +825,15 @@ void World::opReach(const Step &s)
         distances(A.tab, ak, Rl.tab, fwd, D.N, want);
     }
     unsigned algs = 1 + s.a[0] % 7;     // bit0 FS, bit1 NOFS, bit2 SATUR
-    if (ak != FK_MTB) { algs &= 6; if (!algs) algs = 2; }    // the frontier variant is offered for boolean sets only
+    if (getenv("SIM_DEBUG") && ak == FK_EVP) {
+        fprintf(stderr, "   EV+ reach %s N=%ld init:", fwd ? "fwd" : "bwd", D.N);
+        for (long x = 0; x < D.N; x++) fprintf(stderr, " %s", A.tab.v[size_t(x)].str().c_str());
+        fprintf(stderr, "\n   want:");
+        for (long x = 0; x < D.N; x++) fprintf(stderr, " %s", want.v[size_t(x)].str().c_str());
+        long ne = 0; for (const Val &v : Rl.tab.v) if (v.i) ne++;
+        fprintf(stderr, "\n   relation edges: %ld\n", ne);
+    }
+    if (ak != FK_MTB) algs = 6;     // distances: breadth-first without frontier and saturation, always both (the frontier variant is boolean only)
     desc << "reach " << (fwd ? "fwd" : "bwd") << " algs=" << algs << " init " << en(A) << " rel " << en(Rl) << " in " << fn(Rl.forest) << " result " << fn(ri);
     if (tracing) { fprintf(stderr, "   doing: %s\n", desc.str().c_str()); fflush(stderr); }
     dd_edge ac(*A.e), rc(*Rl.e);
